@@ -22,6 +22,7 @@ import (
 
 	consensustypes "github.com/palomachain/paloma/v2/x/consensus/types"
 	schedulertypes "github.com/palomachain/paloma/v2/x/scheduler/types"
+	evmtypes "github.com/palomachain/paloma/v2/x/evm/types"
 	skywaytypes "github.com/palomachain/paloma/v2/x/skyway/types"
 	valsettypes "github.com/palomachain/paloma/v2/x/valset/types"
 
@@ -79,7 +80,9 @@ type qmsg struct {
 	queue     string
 	id        uint64
 	addedAt   int64
-	delivered string // "", public, error
+	delivered string // "", public, error, error+public
+	hasErr    bool   // error data stored on the message
+	hasPub    bool   // public access data stored on the message
 	evidence  []string
 	turnstone bool
 	gasEst    uint64
@@ -98,6 +101,7 @@ type planEv struct {
 	Val   int
 	Group int
 	At    int64
+	Phase int // 0: any time; 1: once the error report is on the message; 2: once the transaction (public access data) is on it
 }
 
 type msgTrack struct {
@@ -108,7 +112,7 @@ type msgTrack struct {
 	id        uint64
 	addedAt   int64
 	class     string
-	deliver   string
+	deliver   string // public | error | none | error-then-public
 	deliverAt int64
 	ev        []planEv
 	estimate  bool // pigeons estimate gas for it (-> elected estimate)
@@ -118,6 +122,7 @@ type msgTrack struct {
 	recorded  map[int]int // validator -> proof group (accepted MsgAddEvidence)
 	delivered string
 	done      bool
+	redeliveredTrack
 }
 
 type sentTx struct {
@@ -268,9 +273,13 @@ func (m *mon) observe() obs {
 			for _, qm := range msgs {
 				e := qmsg{queue: q, id: qm.GetId(), addedAt: qm.GetAddedAtBlockHeight(), turnstone: sub == "evm-turnstone-message",
 					gasEst: qm.GetGasEstimate(), needsGas: qm.GetRequireGasEstimation()}
-				if qm.GetPublicAccessData() != nil {
+				e.hasPub, e.hasErr = qm.GetPublicAccessData() != nil, qm.GetErrorData() != nil
+				switch {
+				case e.hasPub && e.hasErr:
+					e.delivered = "error+public"
+				case e.hasPub:
 					e.delivered = "public"
-				} else if qm.GetErrorData() != nil {
+				case e.hasErr:
 					e.delivered = "error"
 				}
 				for _, ev := range qm.GetEvidence() {
@@ -498,6 +507,7 @@ func (m *mon) step() {
 	}
 	post := m.observe()
 	m.checkBlock(pre, post, br)
+	m.noteLostEvidence(post)
 	m.absorb(post, br)
 	m.cur = post
 	if m.stopped {
@@ -1206,7 +1216,8 @@ func (m *mon) planMessage(q qmsg, h int64) *msgTrack {
 	mt.deliver = []string{"public", "public", "public", "error"}[r.Intn(4)]
 	mt.deliverAt = h + 1 + int64(r.Intn(40))
 	m.refreshShares()
-	classes := []string{"none", "below10", "just-below10", "just-below10", "exact10", "exact10", "low", "low", "mid", "mid", "split", "split", "undelivered-evidence", "undelivered-none"}
+	classes := []string{"none", "below10", "just-below10", "just-below10", "exact10", "exact10", "low", "low", "mid", "mid", "split", "split", "undelivered-evidence", "undelivered-none",
+		"redelivered", "redelivered", "redelivered"}
 	mt.class = classes[r.Intn(len(classes))]
 	add := func(vals []int, group int) {
 		for _, v := range vals {
@@ -1279,6 +1290,8 @@ func (m *mon) planMessage(q qmsg, h int64) *msgTrack {
 		}
 	case "undelivered-none":
 		mt.deliver = "none"
+	case "redelivered":
+		m.planRedelivered(mt, hp)
 	}
 	return mt
 }
@@ -1287,6 +1300,15 @@ func (m *mon) proof(mt *msgTrack, group int) *codectypes.Any {
 	k := fmt.Sprintf("%s|%d", mt.key, group)
 	if p, ok := m.proofs[k]; ok {
 		return p
+	}
+	if group == groupErrorProof {
+		// what a pigeon attests when the relayer reported a failed execution
+		anyv, err := codectypes.NewAnyWithValue(&evmtypes.SmartContractExecutionErrorProof{ErrorMessage: fmt.Sprintf("execution reverted: message %d", mt.id)})
+		if err != nil {
+			panic(err)
+		}
+		m.proofs[k] = anyv
+		return anyv
 	}
 	to := common.HexToAddress(fmt.Sprintf("0x%040x", 0xC0DE000+mt.chainIdx))
 	rtx, err := world.NewRemoteTx(m.w.Vals[0].EthKey, uint64(1000+mt.chainIdx), mt.id*10+uint64(group), &to, []byte{byte(group), 0xca, 0xfe}, 1)
@@ -1377,23 +1399,33 @@ func (m *mon) pigeonMessageOps(h int64) {
 				m.outbox[vi] = append(m.outbox[vi], outMsg{notBefore: h, kind: "error-data", msg: world.MsgErrorData(v, mt.queue, mt.id, data), cb: func(res chain.TxResult) {
 					if res.OK() && mt.delivered == "" {
 						mt.delivered = "error"
+						mt.relayer = vi
 					}
 				}})
 			}
 			mt.deliverAt = h + 3 // retry (another validator) if it did not go through
 		}
+		m.redeliverOps(mt, q, h)
 		var keep []planEv
 		for _, pe := range mt.ev {
-			if pe.At > h {
+			// pigeons attest what the message carries: phase 1 waits for the error report, phase 2 for the transaction
+			if pe.At > h || (pe.Phase == 1 && !q.hasErr) || (pe.Phase == 2 && !q.hasPub) {
 				keep = append(keep, pe)
 				continue
 			}
 			pe, mt := pe, mt
 			v := w.Vals[pe.Val]
 			msg := &consensustypes.MsgAddEvidence{Proof: m.proof(mt, pe.Group), MessageID: mt.id, QueueTypeName: mt.queue, Metadata: world.Meta(v)}
+			if pe.Phase == 1 {
+				mt.pendP1++
+			}
 			m.outbox[pe.Val] = append(m.outbox[pe.Val], outMsg{notBefore: h, kind: "add-evidence", msg: msg, cb: func(res chain.TxResult) {
+				if pe.Phase == 1 {
+					mt.pendP1--
+				}
 				if res.OK() {
 					mt.recorded[pe.Val] = pe.Group
+					mt.noteAccepted(pe)
 				}
 			}})
 		}
@@ -1422,6 +1454,9 @@ type prunedMsg struct {
 	total    sdkmath.Int
 	below10  bool
 	bucket   string
+	stored   map[int]bool // evidence on the stored message at the boundary before the prune block
+	// error report replaced by a transaction report: shares that attested before / after (else "")
+	redelivered string
 }
 
 func (m *mon) checkBlock(pre, post obs, br *chain.BlockResult) {
@@ -1507,14 +1542,21 @@ func (m *mon) checkPrune(pre, post obs, newly []int) {
 				m.rec.Count("prune_evidence_only_in_store", 1)
 			}
 		}
+		pm.stored = stored
+		shares := map[int]int64{}
 		if pre.snap != nil {
 			pm.total = pre.snap.TotalShares
 			for _, sv := range pre.snap.Validators {
-				if vi, ok := valIdxByAddr[sdk.ValAddress(sv.Address).String()]; ok && pm.attested[vi] {
+				vi, ok := valIdxByAddr[sdk.ValAddress(sv.Address).String()]
+				if ok && sv.ShareCount.IsInt64() {
+					shares[vi] = sv.ShareCount.Int64()
+				}
+				if ok && pm.attested[vi] {
 					pm.votes = pm.votes.Add(sv.ShareCount)
 				}
 			}
 		}
+		m.noteRedelivered(pm, shares)
 		pm.below10 = pm.votes.MulRaw(10).LT(pm.total)
 		switch {
 		case pm.votes.IsZero():
@@ -1555,7 +1597,7 @@ func (m *mon) checkPrune(pre, post obs, newly []int) {
 			allBelow = false
 		}
 		m.rec.Eval(int64(len(pm.attested)) + 1)
-		m.rec.Distinct(fmt.Sprintf("prune|%s|%s|att=%d|jailed=%d|n=%d", dk, pm.bucket, len(pm.attested), len(newly), len(pruned)))
+		m.rec.Distinct(fmt.Sprintf("prune|%s|%s|%s|att=%d|jailed=%d|n=%d", dk, pm.redelivered, pm.bucket, len(pm.attested), len(newly), len(pruned)))
 		dbg("h=%d pruned %s|%d delivered=%s bucket=%s attested=%v votes=%s/%s newly=%v", h, pm.q.queue, pm.q.id, dk, pm.bucket, pm.attested, pm.votes, pm.total, newly)
 	}
 	if len(newly) == 0 {
@@ -1569,8 +1611,14 @@ func (m *mon) checkPrune(pre, post obs, newly []int) {
 			att = append(att, m.w.Vals[vi].Name)
 		}
 		sort.Strings(att)
-		return map[string]any{"queue": pm.q.queue, "id": pm.q.id, "added_at": pm.q.addedAt, "delivered": pm.q.delivered, "evidence_from": att,
-			"attested_shares": pm.votes.String(), "snapshot_total_shares": pm.total.String(), "bucket": pm.bucket}
+		d := map[string]any{"queue": pm.q.queue, "id": pm.q.id, "added_at": pm.q.addedAt, "delivered": pm.q.delivered, "evidence_from": att,
+			"attested_shares": pm.votes.String(), "snapshot_total_shares": pm.total.String(), "bucket": pm.bucket,
+			"evidence_on_stored_message_before_prune_block": names(m, pm.stored)}
+		if pm.redelivered != "" {
+			d["evidence_accepted_after_error_report"] = names(m, pm.mt.before)
+			d["evidence_accepted_after_public_access_data"] = names(m, pm.mt.after)
+		}
+		return d
 	}
 	var all []map[string]any
 	for _, pm := range pruned {
